@@ -4,7 +4,7 @@
 From Util Require Import Common.Base Common.ListLemmas RefCount.Model RefCount.Spec RefCount.Proofs RefCount.ProofsC08 RefCount.ProofsC08b
   RefCount.ProofsC09 RefCount.ProofsC10 RefCount.ProofsC10a RefCount.ProofsC10b RefCount.ProofsCodec RefCount.ProofsMon RefCount.ProofsMon2 RefCount.ProofsMon3
   RefCount.ProofsMon4 RefCount.ProofsMon5 RefCount.ProofsMon6 RefCount.ProofsMon7 RefCount.ProofsMonG RefCount.ProofsMon8 RefCount.ProofsMon9 RefCount.ProofsMon10
-  RefCount.ProofsMon11 RefCount.ProofsMon12 RefCount.ProofsMon13 RefCount.ProofsMon14 RefCount.ProofsMon15 RefCount.ProofsMon16 RefCount.ProofsMon17
+  RefCount.ProofsMon11 RefCount.ProofsMon12 RefCount.ProofsMon13 RefCount.ProofsMon14 RefCount.ProofsMon15 RefCount.ProofsMon16 RefCount.ProofsMon17 RefCount.ProofsMonE
   RefCount.ProofsMon18 RefCount.ProofsMon19 RefCount.ProofsMon20 RefCount.ProofsMon21.
 Open Scope nat_scope.
 
@@ -109,6 +109,7 @@ Section AccAll.
   Hypothesis HP : Rproj m h.
   Hypothesis Hd : dec h e e0 rets.
   Hypothesis Hcur : m_cur m = cur_of (hs h).
+  Hypothesis Hem : Rempty m (hs h).
   Hypothesis HA : Racc2 m (hs h).
   Local Notation s := (hs h).
   Local Notation s1 := (step repaired (hs h) e0).
@@ -117,7 +118,7 @@ Section AccAll.
   Local Notation h' := {| hs := settle (step repaired (hs h) e0); hrel := length (rellog (settle (step repaired (hs h) e0))); hconst := hconst h |}.
 
   Lemma HR' : HR h'. Proof. exact (HR2 h e e0 rets HRh Hd). Qed.
-  Lemma Ecur' : u_cur m e p = cur_of s'. Proof. exact (upd_cur_c m h e e0 rets HCh HP Hd Hcur). Qed.
+  Lemma Ecur' : u_cur m e p = cur_of s'. Proof. exact (upd_cur_c m h e e0 rets HCh HP Hd Hcur Hem). Qed.
 
   Lemma not_store g : e0 <> EStore g \/ resolved s = false.
   Proof.
@@ -154,9 +155,7 @@ Section AccAll.
       { apply orb_true_iff in St. destruct St as [St|St]; [left; now apply negb_true_iff | right; now apply Mine]. }
       destruct (started_fresh m h e e0 rets Hd HAo i Hi Hk ltac:(now rewrite Ep) Hs) as [Fc Fn].
       destruct (HR_cur_val h' i v0 HR' Hi Hk Ep Fc) as [Er [Ev Ee]]. cbn [hs] in Er, Ev, Ee.
-      rewrite Ecur'. unfold cur_of. rewrite Er, Ee. unfold u_vof. rewrite (rp_const m h HP).
-      destruct (Lt2 h e e0 rets HCh Hd) as [_ [_ [V1 _]]]. destruct (V1 Er) as [[Hv|[_ Hv]] _]; [|congruence].
-      rewrite <- Ev, Hv, nn_vofc, !N.eqb_refl. cbn [negb orb andb fails]. split; [reflexivity|]. split; [reflexivity|]. intros _. split; [intros Hx; discriminate Hx | intros Hx; contradiction].
+      rewrite Ecur'. unfold cur_of. rewrite Er, Ee. rewrite (vofe_cur m h e e0 rets HCh HP Hd Hem Er Ee), <- Ev, !N.eqb_refl. cbn [negb orb andb fails]. split; [reflexivity|]. split; [reflexivity|]. intros _. split; [intros Hx; discriminate Hx | intros Hx; contradiction].
     - (* the invocation was running before this event and has not returned *)
       apply orb_false_iff in St. destruct St as [Sa Sm]. apply negb_false_iff in Sa.
       assert (Hn : forall res, e0 <> ECbReturn i res).
@@ -171,7 +170,7 @@ Section AccAll.
         - intros Hinv. pose proof (HR_acc_ok h i HRh) as [K0 _]. apply orb_true_iff in Hinv. destruct Hinv as [Hinv|Hinv].
           + pose proof (proj1 (r2_ainv m s HA i Hk0 Hp0) Hinv) as Hne. destruct Enon as [[_ E]|E]; lia.
           + destruct (u_lost m e p) as [g|] eqn:El; [|discriminate].
-            pose proof (lost_resolved_c m h e e0 rets Hd Hcur g El) as Er0. pose proof (lost_unresolved_c m h e e0 rets HCh HP Hd Hcur g El) as Er1.
+            pose proof (lost_resolved_c m h e e0 rets Hd Hcur g El) as Er0. pose proof (lost_unresolved_c m h e e0 rets HCh HP Hd Hcur Hem g El) as Er1.
             destruct Enon as [[Ea _]|E]; [|lia]. unfold acont in Ea. inversion Ea. congruence.
         - intros Hne. destruct (nth i (m_ainv m) false) eqn:Ei; [reflexivity|]. cbn [orb].
           destruct (u_lost m e p) as [g|] eqn:El; [reflexivity|]. exfalso.
@@ -181,7 +180,7 @@ Section AccAll.
             pose proof (proj2 (r2_ainv m s HA i Hk0 Hp0) E). congruence. }
           pose proof (HR_acc_ok h i HRh) as [_ K0]. destruct (cpcv (getc s i)) as [| | |v2| |] eqn:Ep0; try discriminate Hp0.
           destruct K0 as [_ K0]. destruct (K0 En0) as [R1 _]. assert (Er0 : resolved s = true) by congruence.
-          destruct (not_lost_same m h e e0 rets HCh HP Hd Hcur Er0 El) as [Er1 _].
+          destruct (not_lost_same m h e e0 rets HCh HP Hd Hcur Hem Er0 El) as [Er1 _].
           assert (Hns : forall g, e0 <> EStore g) by (intros g; destruct (not_store g) as [N|N]; [exact N | congruence]).
           destruct (sect_pc s e0 i Hl Hk0 (dec_not_cons_step h e e0 rets Hd)) as [S1 _]. specialize (S1 ltac:(now rewrite Ep0) Hn).
           assert (Hi1 : i < length (conss s1)) by (now rewrite <- len_s1).
